@@ -991,7 +991,8 @@ func checkBadStatus(r *Report, m *spModel, fn *ssa.Function, rule string) {
 // errFlowsOut: the error value is returned, kept as the PrivateErr of the returned error, or handed to a module function or
 // local function literal that does one of these with its parameter.
 func errFlowsOut(p *Prog, v ssa.Value, depth int) bool {
-	if depth > 3 || v.Referrers() == nil {
+	// (an error kept in a result variable passes one merge per later step that is skipped once it is set)
+	if depth > 12 || v.Referrers() == nil {
 		return false
 	}
 	for _, rf := range *v.Referrers() {
